@@ -166,7 +166,7 @@ class ClientSubRun:
         res = self.res
         kind = ch.weighted("op.kind", [(5, "subscribe"), (4, "unsubscribe"), (4, "pause"), (4, "resume"),
                                        (1, "unsub_all"), (1, "pause_all"), (1, "resume_all"),
-                                       (4, "sub_ctx"), (4, "pause_ctx"), (1, "reconnect")])
+                                       (4, "sub_ctx"), (4, "pause_ctx"), (1, "reconnect"), (1, "drop_reconnect")])
         s0, p0 = c.subscribed_types, c.paused_subscribed_types
         d0 = self.last_delivered if self.last_delivered is not None else self.probe()
         self.res.probes[f"op_{kind}"] += 1
@@ -175,8 +175,15 @@ class ClientSubRun:
         try:
             if kind in ("subscribe", "unsubscribe", "pause", "resume"):
                 lst = self.arg_list("arg")
+                cont = ch.weighted("arg.container", [(5, "list"), (2, "tuple"), (2, "set"), (1, "dict_keys")])
+                if cont == "tuple":
+                    lst = tuple(lst)
+                elif cont == "set":
+                    lst = set(lst)
+                elif cont == "dict_keys":
+                    lst = dict.fromkeys(lst).keys()
                 what = f"{kind}({self.fmt(lst) if lst else []})"
-                what = f"{kind}({['ALL' if x == ALL else x for x in lst]})"
+                what = f"{kind}({cont} {['ALL' if x == ALL else x for x in lst]})"
                 self.t(what)
                 {"subscribe": c.subscribe, "unsubscribe": c.unsubscribe, "pause": c.pause_subscription,
                  "resume": c.resume_subscription}[kind](lst)
@@ -216,6 +223,26 @@ class ClientSubRun:
                             f"{what} entered with subscribed={self.fmt(s0)} paused={self.fmt(p0)} left "
                             f"subscribed={self.fmt(s1)} paused={self.fmt(p1)}",
                             sig="context_not_restored:" + ("paused" if s1 == s0 else "subscribed"))
+            elif kind == "drop_reconnect":
+                # the network resets the connection; the same Client object connects again
+                from pyrtma.exceptions import ClientError
+                self.t("connection reset by the network; connect() again")
+                c._sock.rx_rst = 2
+                c._sock.peer.rx_rst = 2
+                for _ in range(3):
+                    if not c.connected:
+                        break
+                    try:
+                        c.send_module_ready()
+                        c.read_message(timeout=0)
+                    except ClientError:
+                        pass
+                self.w.quiesce()
+                if not c.connected:
+                    c.connect(f"127.0.0.1:{self.w.PORT}")
+                    self.w.quiesce()
+                    self.res.probes["reconnect_after_loss"] += 1
+                    self.check_agreement("reconnect after connection loss")
             else:
                 self.t("disconnect(); connect()")
                 c.disconnect()
